@@ -677,7 +677,7 @@ func (md *Model) Diff(actual []string) []Finding {
 			for l, s := range md.Seen {
 				if s == 0 && md.PBHist[l] != 0 {
 					hist |= md.PBHist[l]
-					where = md.Tree.Where(l)
+					where = worse(where, md.Tree.Where(l))
 				}
 			}
 			switch {
@@ -688,7 +688,7 @@ func (md *Model) Diff(actual []string) []Finding {
 			default:
 				for l, s := range md.Seen {
 					if s == 0 {
-						where = md.Tree.Where(l)
+						where = worse(where, md.Tree.Where(l))
 					}
 				}
 				add("lost:"+where+":request", fmt.Sprintf("answer has %d 'pingback never occurred' error(s), want %d", a, e))
